@@ -80,6 +80,26 @@ void history(const JV& h, size_t k, const char* ver, bool reopened, std::string&
 			continue;
 		}
 		if (op == "eye" && !bs) continue;
+		if (op == "all") {
+			// every array a tool fills after giving a shape its vertices; judged by the reload checks that follow
+			std::vector<Vector2> uv;
+			std::vector<Vector3> no, ta, bi;
+			std::vector<Color4> co;
+			for (size_t i = 0; i < nv; i++) {
+				uv.emplace_back(0.125f * float(i % 8) + 0.25f * float(v), 0.5f * float(v));
+				no.emplace_back(sgn(i + v + 1, 0), sgn(i + v + 1, 1), sgn(i + v, 2));
+				ta.emplace_back(sgn(i + v + 3, 0), sgn(i + v + 3, 1), sgn(i * 3 + v, 2));
+				bi.emplace_back(sgn(i + v + 5, 0), sgn(i + v + 5, 1), sgn(i * 5 + v, 2));
+				co.emplace_back(float((i + v) & 1), float(((i + v) >> 1) & 1), float(v & 1), 1.0f);
+			}
+			nif.SetUvsForShape(shape, uv);
+			nif.SetNormalsForShape(shape, no);
+			nif.SetTangentsForShape(shape, ta);
+			nif.SetBitangentsForShape(shape, bi);
+			nif.SetColorsForShape(shape, co);
+			for (auto w : {"uvs", "normals", "tangents", "bitangents", "colors"}) written.insert(w);
+			continue;
+		}
 		if (op == "vertsN") written.clear();
 		if (op == "verts" || op == "vertsN") written.insert("verts");
 		else if (op != "tris") written.insert(op);
